@@ -83,6 +83,7 @@ type Ctx struct {
 	warn     []string
 	curProp  string
 	specErrors int
+	staleContract bool // a clause names a variable that no longer exists
 	cands      []*Term // instantiation candidates: integer parameters, loop counters (and +1)
 	recDefs    map[string]*recDef
 	recBuilding map[string]*recDef
